@@ -963,6 +963,76 @@ func c10Jobs(tier string) []Job {
 			return c10Finish(e, st)
 		}})
 	}
+	// ---- pass 5: Flood switched on AND off again in the middle of a burst. Differential: the same session with and
+	// without lines written while Flood was set. Whether those lines are charged is not said; either way the
+	// protected lines that follow are never written EARLIER for them (no line sent while Flood is set can take
+	// penalty away).
+	jobs = append(jobs, Job{Name: "p5-flood-on-and-off-again", Cost: 10, Run: func(jc *JobCtx) *JobResult {
+		name := "p5-flood-on-and-off-again"
+		e := NewEnum(name)
+		run := func(n1, ln int, gap time.Duration, k, n2 int) (at []time.Duration, kind string) {
+			o := RunSeq(vx.Options{Horizon: 24 * time.Hour}, func(env *vx.Env) {
+				s, err := StartSession(env, "me", func(cfg *client.Config) { cfg.Flood = false }, nil)
+				if err != nil {
+					return
+				}
+				n := len(s.Wire())
+				body := strings.Repeat("x", ln)
+				for i := 0; i < n1; i++ {
+					s.C.Raw(fmt.Sprintf("A%d %s", i, body))
+				}
+				s.VC.WaitLines(n + n1)
+				vx.Sleep(gap)
+				s.C.Config().Flood = true
+				for i := 0; i < k; i++ {
+					s.C.Raw(fmt.Sprintf("F%d %s", i, body))
+				}
+				s.VC.WaitLines(n + n1 + k)
+				s.C.Config().Flood = false
+				for i := 0; i < n2; i++ {
+					s.C.Raw(fmt.Sprintf("B%d %s", i, body))
+				}
+				s.VC.WaitLines(n + n1 + k + n2)
+				for _, l := range c18LinesAt(s.VC) {
+					if strings.HasPrefix(l.Text, "B") {
+						at = append(at, l.At)
+					}
+				}
+				s.End()
+			})
+			return at, o.Kind
+		}
+		for _, n1 := range []int{4, 5, 6, 9} {
+			for _, ln := range []int{0, 118, 500} {
+				for _, gap := range []time.Duration{0, time.Second, 5 * time.Second} {
+					for _, k := range []int{1, 3} {
+						for _, n2 := range []int{1, 2, 4} {
+							if stop(e, jc) {
+								return e.Done()
+							}
+							in := fmt.Sprintf("%d protected lines of %d bytes, %s later Flood set, %d lines, Flood cleared, %d protected lines", n1, ln+3, gap, k, n2)
+							e.Case(in)
+							with, k1 := run(n1, ln, gap, k, n2)
+							without, k2 := run(n1, ln, gap, 0, n2)
+							params := map[string]interface{}{"pass": "flood-on-and-off-again", "n1": n1, "len": ln, "gap": gap.String(), "k": k, "n2": n2}
+							if k1 != "ok" || k2 != "ok" || len(with) != n2 || len(without) != n2 {
+								e.Fail("flood-toggle", "session-failed", in, fmt.Sprintf("the sessions ended %s / %s with %d / %d of the last lines written", k1, k2, len(with), len(without)), params)
+								continue
+							}
+							for i := range with {
+								if with[i] < without[i] {
+									e.Fail("flood-toggle", "flood-lines-forgive-penalty", in, fmt.Sprintf("protected line %d after the toggle is written at %v; in the same session without the %d lines sent while Flood was set it is written at %v: lines that are never delayed took penalty away", i+1, with[i], k, without[i]), params)
+									break
+								}
+							}
+						}
+					}
+				}
+			}
+		}
+		e.Sample("4 protected lines of 3 bytes, 0s later Flood set, 1 lines, Flood cleared, 1 protected lines")
+		return e.Done()
+	}})
 	sort.SliceStable(jobs, func(a, b int) bool { return jobs[a].Cost > jobs[b].Cost })
 	return jobs
 }
